@@ -114,17 +114,40 @@ def _deco(d):
     return {"raise": "@error_raise ", "ignore": "@error_ignore ", None: ""}[d]
 
 
+NF_NAME = "nfcmd5x"          # exists nowhere on the (controlled) $PATH: "command not found"
+NX_NAME = "noexecp5x"        # a 0644 file in a $PATH directory: "permission denied" when xonsh tries to start it
+NX_FILE = "noexecf5x"        # a 0644 file named by its absolute path
+
+
+def _sf_word(kind):
+    if kind == "nf":
+        return NF_NAME
+    if kind == "perm":
+        return NX_NAME
+    if kind == "path":
+        d = _state.get("nxdir")
+        if d is None:
+            raise common.HarnessError("non-executable helper file not set up")
+        return os.path.join(d, NX_FILE)
+    raise common.HarnessError("bad spawn-failure kind %r" % (kind,))
+
+
 def render_leaf(leaf, i):
     parts = []
     for j, s in enumerate(leaf["stages"]):
-        if s.get("ext"):
-            cmd = "vexit %d %s" % (s["code"], stage_id(i, j))
+        if s.get("sf"):
+            cmd = _sf_word(s["sf"])
+        elif s.get("ext"):
+            cmd = "vexit %d" % s["code"]
         else:
             cmd = "%s%d" % ("e" if s.get("emit") else "r", s["code"])
-            if leaf["form"] == "inject" and j == 0:
-                inn = leaf["inner"]
-                cmd += " @$(%s%s%d %s)" % (_deco(inn.get("deco")), "e" if inn.get("emit") else "r", inn["code"],
-                                            _arg(leaf, inner_id(i)))
+        if leaf["form"] == "inject" and j == 0:
+            inn = leaf["inner"]
+            iname = _sf_word(inn["sf"]) if inn.get("sf") else "%s%d" % ("e" if inn.get("emit") else "r", inn["code"])
+            cmd += " @$(%s%s %s)" % (_deco(inn.get("deco")), iname, _arg(leaf, inner_id(i)))
+        if s.get("ext"):
+            cmd += " " + stage_id(i, j)
+        else:
             cmd += " " + _arg(leaf, stage_id(i, j))
         parts.append(_deco(s.get("deco")) + cmd)
     text = " | ".join(parts)
@@ -177,9 +200,12 @@ def render_body(case):
 
 
 class _Raise(Exception):
-    def __init__(self, rc, ident):
-        Exception.__init__(self, rc, ident)
-        self.rc, self.ident = rc, ident
+    """rc: int, or "nz" (any non-zero: a command that could not be started); ident: stage id or leaf prefix;
+    typ: "cpe" CalledProcessError | "hard" XonshError (refusal to build the pipeline)."""
+
+    def __init__(self, rc, ident, typ="cpe"):
+        Exception.__init__(self, rc, ident, typ)
+        self.rc, self.ident, self.typ = rc, ident, typ
 
 
 class _Chooser:
@@ -201,7 +227,7 @@ def _marked(leaf):
     expression, so the grammar (not the phase-2 re-wrap) builds the call and tags it as a chain operand."""
     if leaf["form"] != "bare" or leaf["cls"] != "py":
         return True
-    return any(s.get("deco") or s.get("ext") for s in leaf["stages"])
+    return any(s.get("deco") or s.get("ext") or s.get("sf") == "path" for s in leaf["stages"])
 
 
 def model_once(case, ch, f1=False):
@@ -220,20 +246,36 @@ def model_once(case, ch, f1=False):
         if form == "inject":
             # the @$( ) argument is evaluated before the command that takes it runs; it is a chain of its own
             inn = leaf["inner"]
-            log.append(inner_id(i))
-            if inn["code"] != 0 and inn.get("deco") != "ignore":
+            if not inn.get("sf"):
+                log.append(inner_id(i))
+            irc = "nz" if inn.get("sf") else inn["code"]
+            if irc != 0 and inn.get("deco") != "ignore":
                 if inn.get("deco") == "raise" or C or R:
-                    raise _Raise(inn["code"], inner_id(i))
+                    raise _Raise(irc, inner_id(i))
         stages = leaf["stages"]
+        sfs = [j for j, s in enumerate(stages) if s.get("sf")]
+        if any(stages[j]["sf"] == "path" for j in sfs):
+            # a non-executable file named by path: the documentation does not say whether that is a failing
+            # command (subject to the flags) or a refusal to run the line at all
+            if ch("noexec-by-path-is-hard-error"):
+                raise _Raise(None, "k%d" % i, "hard")
+        if sfs:
+            # which of the *other* stages of a pipeline get to run when one cannot be started is not documented
+            floating.add(i)
         for j, s in enumerate(stages):
-            if not s.get("ext"):           # the external helper `vexit` does not log
+            if not s.get("ext") and not s.get("sf"):           # the external helper `vexit` does not log
                 log.append(stage_id(i, j))
         last = stages[-1]
-        rc = last["code"]
-        ident = stage_id(i, len(stages) - 1)
+        if last.get("sf"):
+            rc = "nz"                       # could not be started: failed, exit status some non-zero value
+        elif sfs and ch("unstartable-stage-fails-pipeline"):
+            rc = "nz"                       # (else: "a pipeline's code is its last stage's")
+        else:
+            rc = last["code"]
+        ident = ("k%d" % i) if sfs else stage_id(i, len(stages) - 1)
         res = {"rc": rc, "form": form, "ignored": last.get("deco") == "ignore", "ident": ident, "via_not": False}
         if form == "out":
-            res["truth"] = bool(last.get("emit")) and not last.get("ext")
+            res["truth"] = bool(last.get("emit")) and not last.get("ext") and not sfs
         elif form == "unc":
             res["truth"] = False
         else:
@@ -246,9 +288,10 @@ def model_once(case, ch, f1=False):
                 return res
         # a failing stage that is not the last one: "command" may be read as pipeline or as stage
         for j, s in enumerate(stages[:-1]):
-            if s["code"] != 0 and s.get("deco") != "ignore" and (s.get("deco") == "raise" or C):
+            src = "nz" if s.get("sf") else s["code"]
+            if src != 0 and s.get("deco") != "ignore" and (s.get("deco") == "raise" or C):
                 if ch("nonfinal-stage"):
-                    raise _Raise(s["code"], stage_id(i, j))
+                    raise _Raise(src, ("k%d" % i) if sfs else stage_id(i, j))
         if rc != 0 and not res["ignored"]:
             if last.get("deco") == "raise":
                 raise _Raise(rc, ident)
@@ -324,7 +367,7 @@ def model_once(case, ch, f1=False):
         if case.get("exit") is not None:
             exit_code = case["exit"]
     except _Raise as e:
-        exc = (e.rc, e.ident)
+        exc = (e.rc, e.ident, e.typ)
     return {"log": log, "floating": sorted(floating), "exc": exc, "exit": exit_code, "f1": used_f1[0]}
 
 
@@ -387,9 +430,17 @@ def match(o, obs):
     if obs["exc"] is None:
         return False
     typ, rc, cmd = obs["exc"]
-    if typ != "CalledProcessError" or rc != o["exc"][0]:
+    wrc, wident, wtyp = o["exc"]
+    if wtyp == "hard":
+        return typ == "XonshError"
+    if typ != "CalledProcessError":
         return False
-    if cmd is not None and not any(_strip(a) == o["exc"][1] for a in cmd):
+    if wrc == "nz":
+        if not isinstance(rc, int) or rc == 0:
+            return False
+    elif rc != wrc:
+        return False
+    if cmd is not None and not any((_strip(a) or "").startswith(wident) for a in cmd):
         return False
     return True
 
@@ -424,13 +475,45 @@ def judge(case, obs, open_ids):
 # in-process execution
 
 
+def make_nxdir(scratch):
+    """Directory (put on $PATH) with the two non-executable files."""
+    d = os.path.join(scratch, "c05nx")
+    os.makedirs(d, exist_ok=True)
+    for n in (NX_NAME, NX_FILE):
+        f = os.path.join(d, n)
+        if not os.path.exists(f):
+            with open(f, "w") as fh:
+                fh.write("#!/bin/sh\nexit 0\n")
+        os.chmod(f, 0o644)
+    _state["nxdir"] = d
+    return d
+
+
+def check_names(path):
+    """The not-found name must really be absent and the non-executable one must not be shadowed."""
+    import shutil
+
+    p = os.pathsep.join(path)
+    for n in (NF_NAME, NX_NAME):
+        hit = shutil.which(n, path=p)
+        if hit is not None:
+            raise common.HarnessError("%s resolves to an executable (%s) on the controlled PATH" % (n, hit))
+    if os.access(os.path.join(_state["nxdir"], NX_FILE), os.X_OK) and os.geteuid() != 0:
+        raise common.HarnessError("helper file is executable")
+    if not shutil.which("vexit", path=p):
+        raise common.HarnessError("vexit helper not on the controlled PATH")
+
+
 def _setup(scratch, quiet_fd2=False):
     if _state:
         return _state
     from vlib import session
 
     helpers.ensure()
-    XSH = session.load_session(scratch)
+    nxdir = make_nxdir(scratch)
+    path = [helpers.BIN, nxdir, "/usr/bin", "/bin"]
+    check_names(path)
+    XSH = session.load_session(scratch, path=path)
     _state["log"] = []
 
     def mk(code, emit):
@@ -573,6 +656,10 @@ def labels_of(case):
                 labs.append("deco:" + s["deco"])
             if s.get("ext"):
                 labs.append("external-stage")
+            if s.get("sf"):
+                labs.append("cannot-start:" + s["sf"])
+        if lf.get("inner") and lf["inner"].get("sf"):
+            labs.append("cannot-start:inner-" + lf["inner"]["sf"])
     txt = json.dumps(case["tree"])
     if '"not"' in txt:
         labs.append("has-not")
@@ -581,10 +668,16 @@ def labels_of(case):
     return sorted(set(labs))
 
 
+def any_failure(case):
+    leaves = list(iter_leaves(case["tree"]))
+    return any(s["code"] != 0 or s.get("sf") for lf in leaves for s in lf["stages"]) or \
+        any(lf.get("inner") and (lf["inner"]["code"] != 0 or lf["inner"].get("sf"))
+            for lf in leaves if lf["form"] == "inject")
+
+
 def nontrivial(case):
     leaves = list(iter_leaves(case["tree"]))
-    fails = any(s["code"] != 0 for lf in leaves for s in lf["stages"]) or \
-        any(lf.get("inner") and lf["inner"]["code"] != 0 for lf in leaves if lf["form"] == "inject")
+    fails = any_failure(case)
     rich = len(leaves) >= 2 or any(lf["form"] != "bare" for lf in leaves) or \
         any(s.get("deco") for lf in leaves for s in lf["stages"])
     return fails and rich
@@ -907,8 +1000,12 @@ $XONSH_SUBPROC_CMD_RAISE_ERROR = %(C)s
 
 def child_env(scratch):
     d = os.path.join(scratch, "child")
+    path = [helpers.BIN, make_nxdir(scratch), "/usr/bin", "/bin"]
+    if not _state.get("names-checked"):
+        check_names(path)
+        _state["names-checked"] = True
     env = {
-        "PATH": os.pathsep.join([helpers.BIN, "/usr/bin", "/bin"]),
+        "PATH": os.pathsep.join(path),
         "PYTHONPATH": common.REPO,
         "HOME": os.path.join(d, "home"),
         "XDG_CONFIG_HOME": os.path.join(d, "xdg-config"),
@@ -974,8 +1071,7 @@ def judge_process(case, got):
     strict = all_outcomes(case)
     cands = list(strict)
     f1c = [o for o in all_outcomes(case, f1=True) if o["f1"]] if case["flags"][1] else []
-    all_ok = not any(s["code"] != 0 for lf in iter_leaves(case["tree"]) for s in lf["stages"]) and \
-        not any(lf.get("inner") and lf["inner"]["code"] != 0 for lf in iter_leaves(case["tree"]))
+    all_ok = not any_failure(case)
 
     def fits(o):
         fl = set(o["floating"])
@@ -987,6 +1083,8 @@ def judge_process(case, got):
         if o["exc"] is not None:
             if got["status"] == 0:
                 return "exit-status-zero-after-raise"
+            if o["exc"][2] == "hard":
+                return None if "permission denied" in got["stderr"] and not raised_txt else "no-XonshError-reported"
             if not raised_txt:
                 return "no-CalledProcessError-reported"
             return None
